@@ -197,12 +197,12 @@ def run(ctx):
         check_properties(ctx, "PANTR")
     run_corr(ctx, "PANTR", 1.0)
 
-def attach(ctx, scale=0.35):
+def attach(ctx, scale=0.35, extra_oracle=None):
     check_properties(ctx, "PANTR")
     ctx.assumptions.append("PANTR whole-loop model (Pantr.v, theorems in Properties_PANTR.v) attached: whole runs of PANTRSolver<ScriptedTRDirection> must coincide with the verified model at binary64")
-    run_corr(ctx, ctx.pid, scale)
+    run_corr(ctx, ctx.pid, scale, extra_oracle)
 
-def run_corr(ctx, prefix, scale):
+def run_corr(ctx, prefix, scale, extra_oracle=None):
     if not build_driver(ctx, "solve"): return
     cases = gen_dyadic(ctx) + gen_random(ctx, max(40, int(scale * ctx.n(300, 3000))))
     outs = run_driver(ctx, "solve", "".join(c.rq.to_input() for c in cases), timeout=1500)
@@ -212,6 +212,12 @@ def run_corr(ctx, prefix, scale):
     terms, owners = [], []
     for cs, o in zip(cases, outs):
         ctx.count(cs.tag)
+        if extra_oracle is not None and "exc" not in o:
+            # the calling property's own predicate on this whole run (the failing-input search over these runs)
+            for sig, msg in extra_oracle(cs, o):
+                ctx.violation(sig, msg, {"driver": "drv_solve", "input": cs.rq.to_input(), "request": cs.rq.describe(),
+                                         "impl_output": {k: v for k, v in o.items() if k != "records"},
+                                         "final_record": o["records"][-1] if o["records"] else None, "why": msg})
         for sig, msg in oracle(cs, o):
             ctx.violation(sig.replace("PANTR:", prefix + ":pantr-model:") if prefix != "PANTR" else sig, msg,
                           {"driver": "drv_solve", "input": cs.rq.to_input(), "request": cs.rq.describe(), "impl_output": {k: v for k, v in o.items() if k != "records"}, "why": msg})
@@ -247,7 +253,7 @@ def run_corr(ctx, prefix, scale):
     ctx.coverage["pantr_discarded_near_ties"] = ties
     if real:
         cs, o = owners[real[0]]
-        ctx.violation(("%s:pantr-" % prefix if prefix != "PANTR" else "PANTR:") + "run-differs-from-verified-model",
+        (ctx.violation if prefix == "PANTR" else (lambda *a, **k: None))(("%s:pantr-" % prefix if prefix != "PANTR" else "PANTR:") + "run-differs-from-verified-model",
                       "whole run of PANTRSolver differs from the verified model Pantr.pantr (first of %d disagreeing runs; status=%s iterations=%s)" % (len(real), o.get("status"), o.get("iterations")),
                       {"driver": "drv_solve", "input": cs.rq.to_input(), "request": cs.rq.describe(), "impl_output": {k: v for k, v in o.items() if k != "records"},
                        "model_dump": getattr(ctx, "last_dump", "")[-3000:], "why": "model (Coq, binary64) and implementation disagree on this run"})
